@@ -145,6 +145,11 @@ _add('v:31m', 'verb', '[31m', ['31m'], cls='invalid')
 _add('a:abc', 'aset', 'abc', ['abc'], cls='invalid')
 _add('a:1;31mX', 'aset', '1;31mX', ['1;31mX'], cls='invalid')
 _add('v:[1', 'verb', '[[1', ['[1'], cls='invalid')
+_add('a:1@', 'aset', '1@', ['1@'], cls='invalid')
+_add('a:~1', 'aset', '~1', ['~1'], cls='invalid')
+_add('a:1`', 'aset', '1`', ['1`'], cls='invalid')
+_add('a:1/2', 'aset', '1/2', ['1/2'], cls='odd')
+_add('a:1\x7f', 'aset', '1\x7f', ['1\x7f'], cls='odd')
 
 IDS = sorted(CATALOGUE)
 BY_CLASS = {}
